@@ -383,7 +383,7 @@ def compare_call(w, rec, out, val, soft, track_before, pos_before):
     return fails
 
 
-def run_case(cfg, hist, trade, seed=0):
+def run_case(cfg, hist, trade, seed=0, owned=None):
     """-> (fails [(call index, clause, detail)], calls executed)"""
     w = World(cfg, trade, seed)
     fails = []
@@ -403,6 +403,6 @@ def run_case(cfg, hist, trade, seed=0):
         fs = compare_call(w, rec, out, val, soft, tb, pb)
         for c, d in fs:
             fails.append((i, c, d))
-        if fs or out != rec["out"] or out == "error":
+        if out != rec["out"] or out == "error" or (fs and (owned is None or any(c in owned for c, _ in fs))):
             break
     return fails, n
